@@ -18,6 +18,8 @@ import (
 type c11Req struct {
 	User string   `json:"user"`
 	Args []string `json:"args"`
+	// Other: sent on a second connection, coming from the other scope
+	Other bool `json:"other,omitempty"`
 }
 
 type c11Case struct {
@@ -26,6 +28,10 @@ type c11Case struct {
 	Reqs   []c11Req      `json:"reqs"`
 	// Scope the connection comes from (empty = sA, for cases saved before there were two scopes)
 	Scope string `json:"scope,omitempty"`
+	// Cfg2, if set, is loaded into the running server before request number ReloadAt is sent: from
+	// then on it is the policy in force
+	Cfg2     *cfggen.Config `json:"cfg2,omitempty"`
+	ReloadAt int            `json:"reload_at,omitempty"`
 }
 
 var (
@@ -194,27 +200,62 @@ func genC11(t *rapid.T) c11Case {
 	c := c11Case{Format: rapid.SampledFrom([]string{"yaml", "yaml", "json"}).Draw(t, "format")}
 	c.Cfg.Secrets = []cfggen.Secret{cfggen.NewSecret(cfggen.ScopeA, cfggen.KeyA, cfggen.PrefixA), cfggen.NewSecret(cfggen.ScopeB, cfggen.KeyB, cfggen.PrefixB)}
 	c.Scope = rapid.SampledFrom([]string{cfggen.ScopeA, cfggen.ScopeA, cfggen.ScopeB}).Draw(t, "conn_scope")
-	nu := rapid.IntRange(1, 2).Draw(t, "nusers")
-	names := []string{"alice", "bob"}
-	for i := 0; i < nu; i++ {
-		// users may live in both scopes, listed in either order; the scope the connection comes from
-		// always has alice
-		scopes := rapid.SampledFrom([][]string{{cfggen.ScopeA, cfggen.ScopeB}, {cfggen.ScopeB, cfggen.ScopeA}, {c.Scope}, {c.Scope}}).Draw(t, "user_scopes")
-		if i > 0 && rapid.IntRange(0, 3).Draw(t, "other_scope_only") == 0 {
-			scopes = []string{map[string]string{cfggen.ScopeA: cfggen.ScopeB, cfggen.ScopeB: cfggen.ScopeA}[c.Scope]}
+	other := map[string]string{cfggen.ScopeA: cfggen.ScopeB, cfggen.ScopeB: cfggen.ScopeA}[c.Scope]
+	genUsers := func(twin bool) []cfggen.User {
+		var users []cfggen.User
+		nu := rapid.IntRange(1, 2).Draw(t, "nusers")
+		names := []string{"alice", "bob"}
+		for i := 0; i < nu; i++ {
+			// users may live in both scopes, listed in either order; the scope the connection comes from
+			// always has alice
+			scopes := rapid.SampledFrom([][]string{{cfggen.ScopeA, cfggen.ScopeB}, {cfggen.ScopeB, cfggen.ScopeA}, {c.Scope}, {c.Scope}}).Draw(t, "user_scopes")
+			if i > 0 && rapid.IntRange(0, 3).Draw(t, "other_scope_only") == 0 {
+				scopes = []string{other}
+			}
+			if i == 0 && twin {
+				scopes = []string{c.Scope}
+			}
+			u := cfggen.User{Name: names[i], Scopes: append([]string{}, scopes...)}
+			u.Commands = genRules(t, 6)
+			u.Services = genServices(t, 3)
+			ng := rapid.IntRange(0, 2).Draw(t, "ngroups")
+			for g := 0; g < ng; g++ {
+				u.Groups = append(u.Groups, cfggen.Group{Name: fmt.Sprintf("g%d", g), Commands: genRules(t, 4), Services: genServices(t, 2)})
+			}
+			users = append(users, u)
 		}
-		u := cfggen.User{Name: names[i], Scopes: append([]string{}, scopes...)}
-		u.Commands = genRules(t, 6)
-		u.Services = genServices(t, 3)
-		ng := rapid.IntRange(0, 2).Draw(t, "ngroups")
-		for g := 0; g < ng; g++ {
-			u.Groups = append(u.Groups, cfggen.Group{Name: fmt.Sprintf("g%d", g), Commands: genRules(t, 4), Services: genServices(t, 2)})
+		if twin {
+			// a second entry of the same name, for the other scope only, with rules of its own
+			users = append(users, cfggen.User{Name: "alice", Scopes: []string{other}, Commands: genRules(t, 6), Services: genServices(t, 3)})
 		}
-		c.Cfg.Users = append(c.Cfg.Users, u)
+		return users
+	}
+	twin := rapid.IntRange(0, 3).Draw(t, "twin_user") == 0
+	c.Cfg.Users = genUsers(twin)
+	if rapid.IntRange(0, 3).Draw(t, "reload") == 0 {
+		c2 := cfggen.Config{Secrets: c.Cfg.Secrets, Users: genUsers(twin)}
+		c.Cfg2 = &c2
 	}
 	nr := rapid.IntRange(1, 6).Draw(t, "nreqs")
 	for i := 0; i < nr; i++ {
 		c.Reqs = append(c.Reqs, genC11Request(t, []string{"alice", "alice", "alice", "alice", "alice", "alice", "bob", "mallory"}))
+	}
+	// the same question again: later (after the reload, if there is one) and/or from the other scope
+	if twin || c.Cfg2 != nil {
+		c.ReloadAt = len(c.Reqs)
+		for _, r := range append([]c11Req{}, c.Reqs...) {
+			switch rapid.IntRange(0, 3).Draw(t, "repeat") {
+			case 0:
+			case 1:
+				c.Reqs = append(c.Reqs, r)
+			default:
+				r.Other = true
+				c.Reqs = append(c.Reqs, r)
+			}
+		}
+		if c.Cfg2 != nil {
+			c.ReloadAt = rapid.IntRange(1, len(c.Reqs)).Draw(t, "reload_at")
+		}
 	}
 	return c
 }
@@ -252,13 +293,52 @@ func runC11(t failer, c c11Case) {
 	if scope == "" {
 		scope = cfggen.ScopeA
 	}
-	key := scopeKey(scope)
-	d, err := env.dial(cfggen.AddrIn(scope, 3).IP(), 999)
+	connScope := scope
+	otherScope := map[string]string{cfggen.ScopeA: cfggen.ScopeB, cfggen.ScopeB: cfggen.ScopeA}[connScope]
+	dMain, err := env.dial(cfggen.AddrIn(connScope, 3).IP(), 999)
 	if err != nil {
 		t.Fatalf("%v", err)
 	}
+	var dOther *connDriver
 	ev.Class("conn-scope:" + scope)
+	inForce := c.Cfg
 	for i, r := range c.Reqs {
+		if c.Cfg2 != nil && i == c.ReloadAt {
+			c.Cfg2.Restore()
+			doc := c.Cfg2.YAML()
+			if c.Format == "json" {
+				doc = c.Cfg2.JSON()
+			}
+			if err := env.stack.Reload(doc); err != nil {
+				ev.Class("reload-refused")
+			} else {
+				ev.Class("policy-reloaded-mid-case")
+				inForce = *c.Cfg2
+				// a connection keeps the handler and user set it was bound to when it was accepted: the new
+				// policy is what new connections get
+				if dMain, err = env.dial(cfggen.AddrIn(connScope, 5).IP(), 997); err != nil {
+					t.Fatalf("%v", err)
+				}
+				dOther = nil
+			}
+		}
+		scope, d := connScope, dMain
+		if dMain.c.Closed() && !r.Other {
+			continue // the connection's scope serves nobody under the reloaded configuration
+		}
+		if r.Other {
+			ev.Class("request-from-other-scope")
+			if dOther == nil {
+				if dOther, err = env.dial(cfggen.AddrIn(otherScope, byte(4+i%200)).IP(), 998); err != nil {
+					t.Fatalf("%v", err)
+				}
+			}
+			if dOther.c.Closed() {
+				continue // the other scope serves nobody under this configuration
+			}
+			scope, d = otherScope, dOther
+		}
+		key := scopeKey(scope)
 		var margs []model.B
 		for _, a := range r.Args {
 			margs = append(margs, model.B(a))
@@ -292,7 +372,7 @@ func runC11(t failer, c c11Case) {
 			}
 			continue
 		}
-		v := c.Cfg.Authorize(scope, cfggen.AuthzRequest{User: r.User, Args: r.Args})
+		v := inForce.Authorize(scope, cfggen.AuthzRequest{User: r.User, Args: r.Args})
 		ev.Class("mode:" + v.Mode)
 		switch rep.Status {
 		case cfggen.AuthorPassAdd, cfggen.AuthorPassRepl:
